@@ -198,6 +198,12 @@ func (sk *SecretKey) Zero() {
 // expected digest.  This should only be called after previously calling the
 // Zero function or on an initial Unmarshal.
 func (sk *SecretKey) DeriveKey(password *[]byte) error {
+	// scrypt is PBKDF2-HMAC-SHA256 keyed with the password, and HMAC pads a
+	// short key with zero bytes: P and P||0x00.. derive the same key.  Only
+	// the string without trailing NUL bytes is the password.
+	if n := len(*password); n > 0 && (*password)[n-1] == 0 {
+		return ErrInvalidPassword
+	}
 	if err := sk.deriveKey(password); err != nil {
 		return err
 	}
